@@ -415,6 +415,71 @@ theorem failed_request_is_for_page_served (pages : List Page) (faults : List Att
   simp only at this
   rw [hst, this]
 
+/-! ### result-metadata changes between pages do not touch rows or the paging-state chain
+
+True by construction of the model (the transition system runs on the erased script), stated so that the
+claim is explicit; what ties it to the code is the differential run, where pages carry
+METADATA_CHANGED + a new id + new column specs at every position. -/
+
+/-- Two scripts that differ only in where the result metadata changes produce the same execution under
+every fault sequence and schedule: same rows, same errors, same request log. -/
+theorem metadata_changes_do_not_affect_paging (a b : List PageM) (faults : List Attempt) (ops : List Op)
+    (h : erase a = erase b) : run (initM a faults) ops = run (initM b faults) ops := by
+  simp [initM, h]
+
+/-- The row and chain theorems for a script with metadata changes: rows are a prefix of the pages' rows
+and every request for page `k` carries the state returned with page `k-1`, wherever the changes are. -/
+theorem chain_and_rows_with_metadata_changes (ps : List PageM) (faults : List Attempt) (ops : List Op) :
+    (run (initM ps faults) ops).delivered <+: servedRows (erase ps) ∧
+    (∀ e ∈ (run (initM ps faults) ops).log, e.2 = stateBefore (erase ps) e.1) :=
+  ⟨rows_exact_prefix (erase ps) faults ops, paging_state_chain (erase ps) faults ops⟩
+
+/-- `rowVersions` assigns a metadata version to exactly the rows a complete iteration yields, so "the
+m-th delivered row is decoded with the m-th entry" is well defined for every prefix. -/
+theorem rowVersions_length (v : Nat) (ps : List PageM) :
+    (rowVersions v ps).length = (servedRows (erase ps)).length := by
+  induction ps generalizing v with
+  | nil => simp [rowVersions, erase, servedRows]
+  | cons p t ih =>
+    obtain ⟨⟨r, st⟩, c⟩ := p
+    cases st with
+    | none => simp [rowVersions, erase, servedRows]
+    | some st =>
+      have := ih (v + c.toNat)
+      simp only [erase] at this
+      simp [rowVersions, erase, servedRows, this]
+
+/-- Versions never decrease along the rows and change only at a page that announces a change. -/
+theorem rowVersions_sorted (v : Nat) (ps : List PageM) :
+    (rowVersions v ps).Pairwise (· ≤ ·) ∧ ∀ x ∈ rowVersions v ps, v ≤ x := by
+  induction ps generalizing v with
+  | nil => simp [rowVersions]
+  | cons p t ih =>
+    obtain ⟨⟨r, st⟩, c⟩ := p
+    cases st with
+    | none =>
+      simp only [rowVersions]
+      refine ⟨?_, ?_⟩
+      · rw [List.pairwise_replicate]; simp
+      · intro x hx; rw [List.mem_replicate] at hx; omega
+    | some st =>
+      obtain ⟨h1, h2⟩ := ih (v + c.toNat)
+      simp only [rowVersions]
+      refine ⟨?_, ?_⟩
+      · rw [List.pairwise_append]
+        refine ⟨by rw [List.pairwise_replicate]; simp, h1, ?_⟩
+        intro a ha b hb
+        rw [List.mem_replicate] at ha
+        have := h2 b hb
+        omega
+      · intro x hx
+        rcases List.mem_append.mp hx with hx | hx
+        · rw [List.mem_replicate] at hx; omega
+        · have := h2 x hx; omega
+
+example : rowVersions 0 [(([0, 1], some [1]), false), (([2], some [2]), true), (([], some [3]), true), (([3], none), false)]
+    = [0, 0, 1, 2] := by decide
+
 /-! ### the driver's schedules are schedules of the theorems -/
 
 /-- The drop schedules the line-protocol driver runs (laziest / most eager producer, then the drop, then
